@@ -1,4 +1,7 @@
 import GenjaxModel.Proofs.Adev
+import GenjaxModel.Proofs.AdevProg
+import Mathlib.Algebra.Field.Rat
+import Mathlib.Tactic.NormNum
 /-!
 # C11 — ADEV value and gradient estimators are unbiased (exact for enumeration)
 
@@ -54,5 +57,132 @@ theorem C11_composition_unbiased (p q : Dual K) (k : Bool → Bool → Dual K)
       = (flipEnum p (flipEnum q (k true true) (k true false))
                     (flipEnum q (k false true) (k false false))).d :=
   compose_reinforce_mvd_unbiased p q k h1 h2
+
+/-! ## ===== BEGIN work package c11compose: whole programs (any number of composed sites) and more primitives =====
+
+Model `Model/AdevProg.lean`: `Prog` = outcome tree of a discrete ADEV program (`flip e p k`, `cat e ps k`,
+`ret r`; `k outcome` = rest of the program, so later parameters / later sites / the result may depend
+on all earlier outcomes and, through duals, on θ); `SProg` = straight-line programs (a Jaxpr without
+`cond`: parameters are functions of the list of earlier outcomes).  `Prog.exact` = true expectation and
+true derivative (nested enumeration in dual arithmetic), `Prog.run` = `kpure` (one forward-sampling
+run), `Prog.est` = `kdual` (the Dual the CPS interpreter returns, as a finite distribution; each call of
+a continuation draws fresh randomness).  Lemmas in `Proofs/AdevProg.lean`. -/
+section Compose
+open Genjax.Smc.FinDist (E mass)
+
+/-- the guards of `C11_program_unbiased` (definition `Prog.OK`, unfolded): every categorical site is
+    normalised and every outcome probability of a REINFORCE site is non-zero, at every site of the
+    tree -/
+theorem C11_program_guards (e : FlipEst) (p : Dual K) (k : Bool → Prog K) (c : CatEst)
+    (ps : List (Dual K)) (kc : Nat → Prog K) (r : Dual K) :
+    ((Prog.ret r).OK ↔ True) ∧
+    ((Prog.flip e p k).OK ↔ (e = .reinforce → p.v ≠ 0 ∧ 1 - p.v ≠ 0) ∧ ∀ b, (k b).OK) ∧
+    ((Prog.cat c ps kc).OK ↔ (sumD ps).v = 1 ∧ (c = .reinforce → ∀ q ∈ ps, q.v ≠ 0) ∧
+        ∀ i, i < ps.length → (kc i).OK) :=
+  ⟨Iff.rfl, Iff.rfl, Iff.rfl⟩
+
+/-- THE COMPOSITION THEOREM (supersedes the two-site `C11_composition_unbiased`, which is kept):
+    for EVERY discrete ADEV program - any number of sites, any mix of flip_enum, flip_enum_parallel,
+    flip_reinforce, flip_mvd, categorical_enum_parallel and finite-support REINFORCE, arbitrary
+    dependence of later sites on earlier outcomes - the expectation over all random outcomes of the
+    Dual computed by the CPS interpreter is exactly (value) the expectation of the program and
+    (tangent) its derivative; all cross terms between different estimators included. -/
+theorem C11_program_unbiased (p : Prog K) (h : p.OK) :
+    E p.est (fun r => r.v) = p.exact.v ∧ E p.est (fun r => r.d) = p.exact.d :=
+  Prog.est_unbiased p h
+
+/-- … the estimate is a normalised distribution (so the expectations above are genuine averages),
+    and so is the forward-sampling run used by flip_mvd for the complementary outcome, whose mean is
+    the exact value -/
+theorem C11_program_normalised (p : Prog K) (h : p.OK) :
+    mass p.est = 1 ∧ mass p.run = 1 ∧ E p.run (fun o => o) = p.exact.v :=
+  ⟨Prog.mass_est p h, Prog.mass_run p h, Prog.E_run p⟩
+
+/-- the same for straight-line programs (`jaxpr` without `cond`) with any number of sites, started
+    after the outcomes `outs` -/
+theorem C11_straightline_program_unbiased (sp : SProg K) (outs : List Outcome) (h : sp.OK outs) :
+    E (sp.toProg outs).est (fun r => r.v) = (sp.toProg outs).exact.v ∧
+    E (sp.toProg outs).est (fun r => r.d) = (sp.toProg outs).exact.d :=
+  SProg.est_unbiased sp outs h
+
+/-- non-vacuity: a 3-site straight-line program over ℚ - flip_enum, then flip_reinforce whose
+    parameter depends on the first outcome, then flip_mvd whose parameter depends on the second
+    outcome, returning a value and tangent that depend on all three outcomes -/
+def demo3 : SProg Rat :=
+  .flip .enum (fun _ => ⟨1/2, 1⟩) <|
+  .flip .reinforce (fun o => if o = [1] then ⟨1/3, 2⟩ else ⟨1/4, -1⟩) <|
+  .flip .mvd (fun o => if o.getD 1 0 = 1 then ⟨1/5, 3⟩ else ⟨2/3, 1/2⟩) <|
+  .ret fun o => ⟨(o.foldl (fun a b => 2 * a + b) 0 : Nat), (o.foldl (fun a b => 3 * a + b + 1) 0 : Nat)⟩
+
+example : demo3.OK [] := by
+  simp [demo3, SProg.OK]
+  norm_num
+
+/-- its estimator has 16 weighted outcomes (2 continuation estimates for the enumeration, each
+    2 REINFORCE outcomes × 2 MVD outcomes × 1 forward run of the complementary branch) whose mean is
+    the exact dual (1121/360, 6007/240) -/
+example : (demo3.toProg []).est.length = 16 ∧
+    meanD (demo3.toProg []).est = (demo3.toProg []).exact ∧
+    (demo3.toProg []).exact = ⟨1121/360, 6007/240⟩ := by decide +kernel
+
+/-- a second instance with categorical sites: categorical_enum_parallel over 3 outcomes, then a
+    REINFORCE categorical whose probabilities depend on the first outcome, then flip_mvd -/
+def demoCat : SProg Rat :=
+  .cat .enumPar (fun _ => [⟨1/2, 1⟩, ⟨1/3, -2⟩, ⟨1/6, 1⟩]) <|
+  .cat .reinforce (fun o => if o = [0] then [⟨1/4, 1⟩, ⟨3/4, -1⟩] else [⟨1/5, 2⟩, ⟨2/5, 0⟩, ⟨2/5, -2⟩]) <|
+  .flip .mvd (fun o => ⟨1 / ((o.getD 1 0 : Nat) + 2), 1⟩) <|
+  .ret fun o => ⟨(o.foldl (fun a b => 3 * a + b) 0 : Nat), (o.sum : Nat)⟩
+
+example : demoCat.OK [] ∧ meanD (demoCat.toProg []).est = (demoCat.toProg []).exact := by
+  refine ⟨?_, by decide +kernel⟩
+  simp [demoCat, SProg.OK, sumD, Dual.add]
+  norm_num
+  intro i hi
+  split <;> simp [sumD, Dual.add] <;> norm_num
+
+/-- categorical_enum_parallel is exact: the Dual it returns for probability duals `ps`
+    (= softmax(logits) and its JVP) and continuation duals `ks` has value Σ_i p_i k_i and tangent
+    Σ_i (p_i' k_i + p_i k_i') - no outcome is sampled, zero variance -/
+theorem C11_categorical_enum_exact (ps ks : List (Dual K)) :
+    (enumAll ps ks).v = sumK (List.zipWith (fun p k => p.v * k.v) ps ks) ∧
+    (enumAll ps ks).d = sumK (List.zipWith (fun p k => p.d * k.v + p.v * k.d) ps ks) :=
+  ⟨enumAll_v ps ks, enumAll_d ps ks⟩
+
+/-- the softmax probability duals fed to the enumeration are normalised (values sum to 1, tangents
+    to 0; `ex` = the exponential), and under normalised probabilities the enumeration of a constant
+    continuation returns that constant (no spurious gradient) -/
+theorem C11_softmax_normalised (ex : K → K) (ls : List (Dual K))
+    (hS : sumK (ls.map fun l => ex l.v) ≠ 0) (c : Dual K) :
+    sumD (softmaxD ex ls) = ⟨1, 0⟩ ∧
+    enumAll (softmaxD ex ls) (List.replicate (softmaxD ex ls).length c) = c :=
+  ⟨softmaxD_normalised ex ls hS, enumAll_const _ c (softmaxD_normalised ex ls hS)⟩
+
+example : sumK (([⟨0, 1⟩, ⟨1, -1⟩, ⟨2, 5⟩] : List (Dual Rat)).map fun l => (fun x => 1 + x) l.v) ≠ 0 := by
+  decide +kernel
+
+/-- flip_enum_parallel (Σ [p, 1−p] · kdual([True, False])) returns the same Dual as flip_enum, hence
+    is exact as well -/
+theorem C11_flip_enum_parallel_exact (p kT kF : Dual K) :
+    enumAll [p, Dual.sub (Dual.const 1) p] [kT, kF] = flipEnum p kT kF ∧
+    (enumAll [p, Dual.sub (Dual.const 1) p] [kT, kF]).v = Eflip p.v kT.v kF.v ∧
+    (enumAll [p, Dual.sub (Dual.const 1) p] [kT, kF]).d
+      = p.d * (kT.v - kF.v) + p.v * kT.d + (1 - p.v) * kF.d := by
+  rw [flipEnumPar_eq]
+  exact ⟨rfl, flipEnum_exact p kT kF⟩
+
+/-- geometric_reinforce, support truncated to {0..n-1} with P(i) = (1−p)^i p: the outcome-average
+    of the REINFORCE tangents is the derivative of Σ_{i<n} P(i) k_i (0 < p < 1) -/
+theorem C11_geometric_reinforce_unbiased (p : Dual K) (n : Nat) (ks : List (Dual K))
+    (hl : ks.length = n) (h1 : p.v ≠ 0) (h2 : 1 - p.v ≠ 0) :
+    reinforceExpectedTangent (geomProbs p n) ks = (enumAll (geomProbs p n) ks).d :=
+  reinforce_geometric_unbiased p n ks hl h1 h2
+
+example : reinforceExpectedTangent (geomProbs (⟨1/3, 1⟩ : Dual Rat) 4) [⟨1, 0⟩, ⟨2, 1⟩, ⟨5, -1⟩, ⟨7, 2⟩]
+    = (enumAll (geomProbs (⟨1/3, 1⟩ : Dual Rat) 4) [⟨1, 0⟩, ⟨2, 1⟩, ⟨5, -1⟩, ⟨7, 2⟩]).d ∧
+    (enumAll (geomProbs (⟨1/3, 1⟩ : Dual Rat) 4) [⟨1, 0⟩, ⟨2, 1⟩, ⟨5, -1⟩, ⟨7, 2⟩]).d ≠ 0 := by
+  decide +kernel
+
+end Compose
+/-! ## ===== END work package c11compose ===== -/
 
 end Genjax.Adev
